@@ -12,7 +12,8 @@
   DECF64    an f64 presented for a decimal is converted through its shortest printed representation, not from_f64
             (found F33); CAPREG: a registered (kind, key) has an arm (no reviewed "yields Err" exceptions: F34)
             decimal text is parsed exactly (from_str_exact: F40); every integer hint reads a decimal as an integer (F44);
-            built-in type names never shadow the names of named types in the per-name table (F39)
+            what a name designates follows a three-level precedence: full names of named types > built-in type names >
+            short names of namespaced named types (F39, F45); trailing zeroes do not make decimal text inexact (F46)
   ENUMSYM   an Avro enum reaches the caller by symbol text through every hint a Rust enum / identifier / string uses
             (identifier, any, str, string), never by bare position: the serializer resolves unit variants by name
   shared    DECSCALE + FREEZEMAP (c02), SLICE / VARINT / FIXEDBUF reading primitives (c11), POOLCLEAN (c14: pooled
@@ -187,7 +188,14 @@ def decimal_from_f64_rule(ctx):
     ctx.touched(b)
     fam = [b] + f.closures_of(b)
     # helpers of the serializer module that the arms may go through
-    helpers = [x for x in f.body_list if x.id.startswith('ser::serializer::') and any(cname(t) == x.id or (t.get('resolved') or '') == x.id for y in fam for bb, t in y.calls())]
+    helpers = []
+    frontier = list(fam)
+    for _ in range(3):      # helpers of helpers (f64_to_decimal -> str_to_decimal)
+        nxt = [x for x in f.body_list if x.id.startswith('ser::serializer::') and x not in helpers and x not in fam and
+               any(cname(t) == x.id or (t.get('resolved') or '') == x.id for y in frontier for bb, t in y.calls())]
+        helpers += nxt
+        frontier = nxt + [c for x in nxt for c in f.closures_of(x)]
+    helpers += [c for x in list(helpers) for c in f.closures_of(x)]
     inexact = [fn_label(x) for x in fam + helpers for bb, t in x.calls() if not x.is_cleanup(bb) and (t.get('callee') or '').endswith(('FromPrimitive::from_f64', 'Decimal::from_f64_retain', 'TryFrom::try_from')) and
                ('f64' in ' '.join(t.get('arg_tys', [])) )]
     parsed = any((t.get('callee') or '').endswith(('str::<impl str>::parse', 'FromStr::from_str', 'Decimal::from_str_exact')) and 'Decimal' in ' '.join(t.get('substs', []) + [x.local_ty((t.get('dest') or {}).get('l', 0)) or '', t.get('callee') or ''])
@@ -245,6 +253,21 @@ def decimal_exact_parse_rule(ctx):
                 rounding.append('%s at %s' % (short_fn(fn_label(x)), short_loc(t.get('span'))))
             if c.endswith('Decimal::from_str_exact'):
                 exact += 1
+    # ... exact, not stricter: trailing zeroes of the fractional part are not digits of the number ("1.200...0" with 29 of them
+    # is 1.2); from_str_exact counts them, so its error is retried on the text without them
+    retried = False
+    for x in f.body_list:
+        if not x.id.startswith(('ser::', '<ser::')):
+            continue
+        names = [strip_generics(cname(t)) for bb, t in x.calls() if not x.is_cleanup(bb)]
+        if sum(1 for n_ in names if n_.endswith('Decimal::from_str_exact')) >= 1 and any(n_.endswith(('str::trim_end_matches', 'str::trim_end_matches::<char>', 'trim_end_matches')) for n_ in names):
+            retried = True
+        for cb in f.closures_of(x):
+            cn = [strip_generics(cname(t)) for bb, t in cb.calls() if not cb.is_cleanup(bb)]
+            if any(n_.endswith('Decimal::from_str_exact') for n_ in cn) and any('trim_end_matches' in n_ for n_ in cn) and any(n_.endswith('Decimal::from_str_exact') for n_ in names):
+                retried = True
+    ctx.ob('DECSTR', 'trailing-zeroes-are-not-digits', retried, None,
+           'an error of the exact parse is retried on the text without the trailing zeroes of its fractional part: %s' % retried)
     ctx.ob('DECSTR', 'parsed-exactly', not rounding and exact >= 1, None,
            'decimal text parsed with the rounding FromStr: %s; with from_str_exact: %d site(s)' % (rounding or 'nowhere', exact))
 
@@ -373,31 +396,72 @@ def name_pair(ctx):
             oku = 'Null' in keys and bool(prop) and set(prop) <= cmp_names
             detu = 'decoder presents the null branch as unit variant %s; union arm of serialize_unit_variant compares the variant name with %s and can select lookup keys %s' % (prop, sorted(cmp_names) or 'nothing', sorted(k for k in keys if k))
     ctx.ob('NAMEPAIR', 'Null/unit-variant-selects-null-branch', oku, short_loc(suv.span) if suv else None, detu)
-    # named kinds register both the short and the full name
+    # named kinds register both the short and the full name; names of named types and built-in type names ("Duration",
+    # "Date", "String" ...) share one table, so what a name designates follows a precedence: the full name of a named type
+    # (what the decoder proposes for it) beats a type name, which beats the namespace-less short name of a named type that has
+    # a namespace.  Two accepted shapes:
+    # every registration goes through one helper taking (name, precedence) with three distinct constants, which keeps the
+    # entry already there when its precedence is lower (a comparison guards the insert).  (A two-level scheme - named types
+    # always win - was the F39 repair; it let `com.acme.Date` shadow the type name `Date`: F45.)
+    cls = f.closures_of(nb)
+
+    def ccalls(cb):
+        return [(bb, t) for bb, t in cb.calls() if not cb.is_cleanup(bb)]
     rn = None
-    for cb in f.closures_of(nb):
-        cs = [cname(t) for bb, t in cb.calls()]
-        if any(c.endswith('Name::name') for c in cs) or any(c.endswith('Name::fully_qualified_name') for c in cs):
+    for cb in cls:
+        cs = [cname(t) for bb, t in ccalls(cb)]
+        if any(c.endswith('Name::name') for c in cs) and any(c.endswith('Name::fully_qualified_name') for c in cs):
             rn = cb
-    ok = False
-    if rn is not None:
-        cs = [cname(t) for bb, t in rn.calls()]
-        ins = [c for c in cs if c.endswith('HashMap::<K, V, S, A>::insert') or c.endswith('::insert')]
-        ok = any(c.endswith('Name::name') for c in cs) and any(c.endswith('Name::fully_qualified_name') for c in cs) and len(ins) >= 2
-    ctx.ob('NAMEPAIR', 'register_name/short-and-full', ok, short_loc(nb.span), 'register_name inserts both name() and fully_qualified_name(): %s' % ok)
-    # the names of named types and the built-in type names ("Duration", "Decimal", "String" ...) share one table: a record
-    # that is itself called Duration next to a duration logical type must stay reachable under its name - built-in type
-    # names are only added where the name is still free (entry().or_insert), names of named types always win (insert)
     tn = None
-    for cb in f.closures_of(nb):
+    for cb in cls:
         tys = ' '.join((cb.local_ty(i) or '') for i in range(1, cb.nargs + 1))
-        if "&'static str" in tys or '&str' in tys:
-            cs = [strip_generics(cname(t)) for bb, t in cb.calls() if not cb.is_cleanup(bb)]
-            if any(c.endswith(('HashMap::insert', 'HashMap::entry')) for c in cs):
-                tn = (cb, cs)
-    ok_tn = tn is not None and not any(c.endswith('HashMap::insert') for c in tn[1]) and any(c.endswith(('Entry::or_insert', 'Entry::or_insert_with', 'VacantEntry::insert')) for c in tn[1])
-    ctx.ob('NAMEPAIR', 'type-names-never-shadow-named-types', ok_tn, short_loc(nb.span),
-           'built-in type names are registered only where the name is free (entry().or_insert, never a plain insert): %s' % ok_tn)
+        if ("&'static str" in tys or '&str' in tys) and 'u8' not in tys.replace('&str', ''):
+            tn = cb
+    helper = None
+    for cb in cls:
+        tys = [(cb.local_ty(i) or '') for i in range(1, cb.nargs + 1)]
+        if any('Cow<' in t_ for t_ in tys) and any(t_ in ('u8', 'u16', 'u32', 'usize') for t_ in tys):
+            helper = cb
+    ok_names, ok_prec, det_prec = False, False, 'registration closures not found'
+    if rn is not None and tn is not None:
+        def const_ints(cb, t):
+            out = set()
+            for a in t.get('args', []):
+                for x in origin(cb, a).consts():
+                    if isinstance(x, int):
+                        out.add(x)
+            return out
+        if helper is not None:
+            rcalls = [(bb, t) for bb, t in ccalls(rn) if (t.get('resolved') or '') == helper.id or 'FnMut' in cname(t) or 'Fn::call' in cname(t) or 'Fn>::call' in cname(t)]
+            tcalls = [(bb, t) for bb, t in ccalls(tn) if (t.get('resolved') or '') == helper.id or 'Fn::call' in cname(t) or 'Fn>::call' in cname(t)]
+            full_p, short_p = set(), set()
+            for bb, t in rcalls:
+                ko = set()
+                for a in t.get('args', []):
+                    ko |= {strip_generics(n_).rsplit('::', 1)[-1] for n_ in deep_call_names(rn, a, 5) if 'Name::' in n_}
+                if 'fully_qualified_name' in ko and 'name' not in ko:
+                    full_p |= const_ints(rn, t)
+                elif 'name' in ko and 'fully_qualified_name' not in ko:
+                    short_p |= const_ints(rn, t)
+            type_p = set()
+            for bb, t in tcalls:
+                type_p |= const_ints(tn, t)
+            guarded = False
+            for bb, t in ccalls(helper):
+                if strip_generics(cname(t)).endswith(('OccupiedEntry::insert', 'HashMap::insert')):
+                    guarded = guarded or any(g['op'] in ('Lt', 'Le', 'Gt', 'Ge') for g in cmp_guards(helper, bb)) or \
+                        any(si.get('kind') != 'enum' for d, si, taken in dominating_switches(helper, bb))
+            ok_names = bool(full_p) and bool(short_p)
+            ok_prec = len(full_p) == 1 and len(type_p) == 1 and len(short_p) == 1 and max(full_p) < min(type_p) < min(short_p) and guarded
+            det_prec = 'tiered: full names at %s, type names at %s, short names at %s; an entry of lower precedence is kept (comparison before the insert): %s' % (sorted(full_p), sorted(type_p), sorted(short_p), guarded)
+        else:
+            cs = [cname(t) for bb, t in ccalls(rn)]
+            ins = [c for c in cs if c.endswith('HashMap::<K, V, S, A>::insert') or c.endswith('::insert')]
+            ok_names = len(ins) >= 2
+            ok_prec = False
+            det_prec = 'names are registered without a precedence: whichever of a type name and the short name of a namespaced named type (com.acme.Date next to a date) comes last, or is inserted unconditionally, shadows the other'
+    ctx.ob('NAMEPAIR', 'register_name/short-and-full', ok_names, short_loc(nb.span), 'register_name registers both name() and fully_qualified_name(): %s' % ok_names)
+    ctx.ob('NAMEPAIR', 'name-precedence', ok_prec, short_loc(nb.span), det_prec)
 
 
 # (kind, key) registered without a serializer capability: reviewed, one reason each
